@@ -20,7 +20,7 @@ def insBy {α : Type} (key : α → Nat) (x : α) : List α → List α
 def sortBy {α : Type} (key : α → Nat) (xs : List α) : List α := xs.foldr (insBy key) []
 
 def renderMem (m : Mem) (tainted : List Nat := []) (ambig : List Nat := []) : String :=
-  let ser := (sortBy (·.ref) m.series).map fun s =>
+  let ser := (sortBy (·.ref) (m.series.filter fun s => !s.hidden)).map fun s =>
     let vis := s.smps.filter fun x => !Prom.Intervals.coversB s.tombs x.1
     let sm := if vis.isEmpty then "-" else ".".intercalate (vis.map fun x => s!"{x.1}={x.2}")
     let tb := if s.tombs.isEmpty then "-" else "+".intercalate (s.tombs.map fun iv => s!"{iv.mint}~{iv.maxt}")
@@ -78,6 +78,11 @@ def stepLine' (tainted ambig : List Nat) (h : Head) (line : String) : Head × St
       let skip := fun (it : Item) => match it with | .mdata lid _ => ambig.contains lid | _ => false
       let (h, res) := h.tx (cr = "c") (its.filter fun it => !skip it)
       let res := mergeSkips (its.map skip) res
+      -- the exemplar storage of a label set named in an evict op is not a function of the history (see the
+      -- harness): the outcome of validating a new exemplar against it is not printed
+      let res := (its.zip res).map fun (it, r) => match it with
+        | .smp lid _ _ _ => if tainted.contains lid then ((r.splitOn "!").headD r) else r
+        | _ => r
       (h, if res.isEmpty then "-" else ",".intercalate res)
     | none => (h, "bad-op")
   | ["del", lid, a, b] =>
@@ -138,6 +143,8 @@ deriving Repr, Inhabited, DecidableEq
 structure PState where
   series : List PSeries
   exs : List (Nat × Int × Nat)
+  /-- the replayed head's min time (`win=<minT>:…`) -/
+  minT : Int := MinI64
 deriving Repr, Inhabited
 
 def parseTV? (p : String) : Option (Int × Nat) :=
@@ -169,15 +176,23 @@ def parseEx? (p : String) : Option (Nat × Int × Nat) :=
 def lastOf? (s : String) : Option Nat :=
   ((toks s).find? (·.startsWith "last=")).bind fun t => (t.drop 5).toString.toNat?
 
+/-- `win=<minT>:<maxT>:<minValidTime>` → `minT`. -/
+def winMin? (w : String) : Option Int :=
+  if !w.startsWith "win=" then none else
+  match (w.drop 4).toString.splitOn ":" with
+  | [a, _, _] => a.toInt?
+  | _ => none
+
 def parseMem? (s : String) : Option PState :=
   match toks s with
-  | [ser, _exp, ex, _win, _last] =>
+  | [ser, _exp, ex, win, _last] =>
     if !ser.startsWith "ser=" ∨ !ex.startsWith "ex=" then none else do
+    let minT ← winMin? win
     let ser := (ser.drop 4).toString
     let ex := (ex.drop 3).toString
     let series ← if ser = "-" then some [] else (ser.splitOn ",").mapM parseSeries?
     let exs ← if ex = "-" then some [] else (ex.splitOn ",").mapM parseEx?
-    pure ⟨series, exs⟩
+    pure ⟨series, exs, minT⟩
   | _ => none
 
 structure Ack where
@@ -245,15 +260,21 @@ def precViolation (j : J) (recs : List Rec) : Option String :=
 def clipIvs (m : Int) (ivs : List (Int × Int)) : List (Int × Int) :=
   (ivs.filter fun iv => decide (iv.2 ≥ m)).map fun iv => (max iv.1 m, iv.2)
 
-/-- what replay must agree on for one label set, restricted to `t ≥ m` -/
-def restrictSeries (m : Int) (s : PSeries) : List (Int × Nat) × List (Int × Int) :=
-  (s.smps.filter fun x => decide (x.1 ≥ m), clipIvs m s.tombs)
+/-- what replay must agree on for one label set, restricted to `t ≥ m`; tombstones to `t ≥ mt` -/
+def restrictSeries (m mt : Int) (s : PSeries) : List (Int × Nat) × List (Int × Int) :=
+  (s.smps.filter fun x => decide (x.1 ≥ m), clipIvs mt s.tombs)
 
 def hasRecent (m : Int) (s : PSeries) : Bool := s.smps.any fun x => decide (x.1 ≥ m)
 
 /-- C15, first sentence: the head rebuilt from checkpoint + segments equals the head rebuilt from the
     retained full log, on everything at or after the truncation time: per label set that still has a
-    sample there, the samples (deletions applied) and tombstones clipped to `[mint, ∞)`; the exemplars
+    sample there, the samples (deletions applied) and tombstones clipped to `[mint, ∞)` and to the
+    replayed heads' own time range (a head holds nothing below its min time: `Head.gc`, which ends every
+    replay, drops the tombstones lying wholly below it — `TruncateBefore(h.MinTime())` — and the min time
+    of a replayed head is its oldest replayed sample, so the head rebuilt from the truncated log, whose
+    samples below `mint` are gone, starts later than the one rebuilt from the full log; tombstones are
+    therefore compared from the later of the two min times on — no sample of either head, and no sample
+    an in-order series can still get, lies below it); the exemplars
     at or after `mint`; and the latest metadata — compared whenever both replays resolve the label set
     to the SAME series ref (when the old incarnation of a series was garbage-collected and its records
     legitimately dropped, the full log still resurrects its metadata; the live head had forgotten it too). -/
@@ -262,12 +283,13 @@ def replayViolation (j : J) (got full : PState) : Option String :=
   match got.series.find? fun s => s.mid = some 999999 with
   | some s => some s!"replay-differs what=metadata kind=duplicate-ref-map-order lid={s.lid} ref={s.ref}"
   | none =>
+  let mt := max m (max got.minT full.minT)
   let lids := ((got.series ++ full.series).filter (hasRecent m)).map (·.lid)
   let bad := lids.findSome? fun l =>
     let ga := got.series.filter (·.lid = l)
     let fa := full.series.filter (·.lid = l)
-    let a := ga.map (restrictSeries m)
-    let b := fa.map (restrictSeries m)
+    let a := ga.map (restrictSeries m mt)
+    let b := fa.map (restrictSeries m mt)
     if a.map (·.1) ≠ b.map (·.1) then some s!"replay-differs what=samples lid={l} mint={m}"
     else if a.map (·.2) ≠ b.map (·.2) then some s!"replay-differs what=tombstones lid={l} mint={m}"
     else if ga.map (·.ref) = fa.map (·.ref) ∧ ga.map (·.mid) ≠ fa.map (·.mid) then
